@@ -157,6 +157,46 @@ theorem componentsByName_length (enc : τ → ν → Enc) (cols : List (Col τ))
       simp [componentsByName_length enc cols vals ns cs' hcs]
     · simp at h
 
+/-! ### the partition key of a table from the schema rows -/
+
+theorem place_length : ∀ (pk : List (String × Nat)) (a : List (Option String)), (place pk a).length = a.length
+  | [], a => rfl
+  | (n, p) :: r, a => by simp [place, place_length r]
+
+theorem place_other : ∀ (pk : List (String × Nat)) (a : List (Option String)) (i : Nat),
+    (∀ x ∈ pk, x.2 ≠ i) → (place pk a)[i]? = a[i]?
+  | [], a, i, _ => rfl
+  | (n, p) :: r, a, i, h => by
+    have hp : p ≠ i := h (n, p) (by simp)
+    rw [place, place_other r _ i (fun x hx => h x (by simp [hx]))]
+    simp [hp]
+
+theorem place_get : ∀ (pk : List (String × Nat)) (a : List (Option String)),
+    (pk.map (·.2)).Nodup → (∀ x ∈ pk, x.2 < a.length) →
+    ∀ x ∈ pk, (place pk a)[x.2]? = some (some x.1)
+  | [], _, _, _, x, hx => by simp at hx
+  | (n, p) :: r, a, hnd, hlt, x, hx => by
+    simp only [List.map_cons, List.nodup_cons] at hnd
+    rw [place]
+    cases hx with
+    | head =>
+      have hno : ∀ y ∈ r, y.2 ≠ p := by
+        intro y hy hyp
+        exact hnd.1 (by simpa [hyp.symm] using List.mem_map_of_mem (f := (·.2)) hy)
+      rw [place_other r _ p hno]
+      have : p < a.length := hlt (n, p) (by simp)
+      simp [this]
+    | tail _ hx' =>
+      exact place_get r _ hnd.2 (by intro y hy; simpa using hlt y (by simp [hy])) x hx'
+
+theorem pkCount_gt : ∀ (pk : List (String × Nat)), ∀ x ∈ pk, x.2 < pkCount pk
+  | [], x, hx => by simp at hx
+  | (n, p) :: r, x, hx => by
+    simp only [pkCount]
+    cases hx with
+    | head => omega
+    | tail _ hx' => have := pkCount_gt r x hx'; omega
+
 /-! ### order -/
 
 theorem intLe_trans (a b c : Int) : intLe a b = true → intLe b c = true → intLe a c = true := by
